@@ -3,6 +3,7 @@
 -/
 import T2N.Lemmas.Scanner
 import T2N.Props.C03
+import T2N.Lemmas.Iter
 
 namespace T2N.C15
 open T2N
@@ -57,5 +58,27 @@ theorem C15_sep_ignored (cfg : ScanCfg) (s : Scanner) (tok : Tok) (hn : s.parser
 /-- every call to `next` returns (from C03) -/
 theorem C15_next_returns (cfg : ScanCfg) (toks : List Tok) : ∃ r, (iterNew toks).next cfg = .ok r :=
   C03.C03_iter_next cfg (iterNew toks) 0 toks rfl TrInv.init
+
+/-- **C15 (lazy = batch)**: on any token stream, with any hints, language and threshold, calling `next`
+until it returns `None` yields exactly the occurrences of the batch search, in the same order.
+(`fuel` only bounds the number of calls made; any bound above the number of occurrences works.) -/
+theorem C15_iter_eq_batch (cfg : ScanCfg) (toks : List Tok) (occs : List Occ)
+    (h : findNumbers cfg toks = .ok occs) (fuel : Nat) (hf : occs.length < fuel) :
+    iterCollect cfg fuel (iterNew toks) = .ok occs := by
+  apply iterCollect_spec cfg fuel (iterNew toks) occs _ hf
+  unfold findNumbers at h
+  unfold batchQ
+  exact h
+
+/-- … and the batch search always returns (C03), so the equation is never vacuous -/
+theorem C15_iter_eq_batch' (cfg : ScanCfg) (toks : List Tok) :
+    ∃ occs, findNumbers cfg toks = .ok occs ∧ iterCollect cfg (occs.length + 1) (iterNew toks) = .ok occs := by
+  obtain ⟨occs, h⟩ := C03.C03_findNumbers cfg toks
+  exact ⟨occs, h, C15_iter_eq_batch cfg toks occs h _ (Nat.lt_succ_self _)⟩
+
+/-- after the last item the iterator keeps returning `None` -/
+theorem C15_iter_stays_ended (cfg : ScanCfg) (it : Iter) (h : batchQ cfg it.sc it.rest = .ok []) :
+    ∃ it', it.next cfg = .ok (none, it') ∧ batchQ cfg it'.sc it'.rest = .ok [] :=
+  next_spec cfg it [] h
 
 end T2N.C15
